@@ -70,15 +70,79 @@ class Fn:
 
     # ---- return values
     def ret_writes(self):
+        """(block, expression) of every definition of the return value.  A return value that is the result of an inlined
+        helper (`self.helper().await` as the tail expression: `_0 = <the helper's return slot>`) is listed as the helper's
+        own return definitions, at their blocks."""
         out = []
+
+        def slot_defs(l, seen):
+            # whole definitions of a local that is only a carrier of the result (several defs: Ok / Err / from_residual)
+            ds = self.tr.defs.get(l, [])
+            if l in seen or len(ds) < 2 or l <= self.b.raw["arg_count"]:
+                return None
+            res = []
+            for d in ds:
+                lhs = d[3]["p"] if d[2] == "assign" else (d[3]["dest"] if d[2] == "call" else None)
+                if lhs is None or lhs["p"] or d[0] not in self.reach:
+                    return None
+                if d[2] == "assign":
+                    res.extend(expand(d[0], self.ex.rvalue(d[3]["rv"]), seen | {l}))
+                else:
+                    res.append((d[0], self.call_expr(d[3], d[0])))
+            return res
+
+        def expand(bb, e, seen):
+            # `Poll::Ready(slot).@Ready.0`, `slot`: look through to the slot's definitions
+            x = e
+            if x[0] == "proj" and x[1][0] == "agg" and len(x[1][2]) == 1 and tuple(x[2])[-1:] == ("0",) and len(x[2]) <= 2:
+                x = x[1][2][0]
+            if x[0] == "path" and not x[2] and isinstance(x[1], str) and x[1][:1] == "_" and x[1][1:].isdigit():
+                sub = slot_defs(int(x[1][1:]), seen)
+                if sub:
+                    return sub
+            if x[0] == "var" and len(x) > 2:
+                sub = slot_defs(x[2], seen)
+                if sub:
+                    return sub
+            return [(bb, e)]
         for i in sorted(self.reach):
             for st in self.b.blocks[i]["stmts"]:
                 if st["s"] == "assign" and st["p"]["l"] == 0 and not st["p"]["p"]:
-                    out.append((i, self.ex.rvalue(st["rv"])))
+                    out.extend(expand(i, self.ex.rvalue(st["rv"]), set()))
             t = self.b.blocks[i]["term"]
             if t["t"] == "call" and t["dest"]["l"] == 0 and not t["dest"]["p"]:
                 out.append((i, self.call_expr(t, i)))
-        return out
+        return [(bb, self._carriers(e)) for bb, e in out]
+
+    def _carriers(self, e, depth=0, seen=frozenset()):
+        """A result that travels through the return slot of an inlined helper before it is handed on (`helper().await?`):
+        the slot (`_N`, several whole definitions, each an Ok/Err aggregate or the from_residual of a `?`) is shown as the
+        alternatives it carries, so that "which call's failure is this" can be read off the expression."""
+        if not isinstance(e, tuple) or not e or depth > 12:
+            return e
+        if e[0] == "path" and not e[2] and isinstance(e[1], str) and e[1][:1] == "_" and e[1][1:].isdigit():
+            l = int(e[1][1:])
+            ds = self.tr.defs.get(l, [])
+            if l not in seen and len(ds) >= 2 and l > self.b.raw["arg_count"]:
+                alts = []
+                for d in ds:
+                    lhs = d[3]["p"] if d[2] == "assign" else (d[3]["dest"] if d[2] == "call" else None)
+                    if lhs is None or lhs["p"]:
+                        return e
+                    if d[2] == "assign" and d[3]["rv"]["r"] == "agg" and d[3]["rv"].get("kind") == "adt":
+                        alts.append(self._carriers(self.ex.rvalue(d[3]["rv"]), depth + 1, seen | {l}))
+                    elif d[2] == "call" and callee(d[3]).endswith("FromResidual::from_residual"):
+                        alts.append(self._carriers(self.call_expr(d[3], d[0]), depth + 1, seen | {l}))
+                    else:
+                        return e
+                return ("agg", "one-of", tuple(alts), ())
+            return e
+        k = e[0]
+        if k in ("call", "agg"):
+            return (k, e[1], tuple(self._carriers(a, depth + 1, seen) for a in e[2])) + tuple(e[3:])
+        if k in ("ref", "discr", "proj", "cast"):
+            return (k, self._carriers(e[1], depth + 1, seen)) + tuple(e[2:])
+        return e
 
     def classify_ret(self, e):
         """'ok' | 'err' | 'propagate' (from_residual of a failed `?`) | 'ok_or' | '?'"""
